@@ -29,13 +29,22 @@ def run_job(job, w):
     if job.get("line_yield"):
         ly = harness.install_line_yield(job["line_yield"], seed=job.get("line_seed", 0))
     for sc in job["scenarios"]:
-        wf, script = sc["wf"], sc["script"]
-        nodes = wfgen.expand(wf)
+        is_dw = sc.get("kind") == "dowhile"
+        if is_dw:
+            wf, script, nodes = {"dowhile": {k: sc[k] for k in ("K", "fail_at", "loop_stage", "after_stage", "carried")}}, \
+                sc["script"], sc["nodes"]
+            flowir, extra = sc["main"], {"conf/dowhile.yaml": sc["dw"]}
+            w.count("dowhile_runs")
+        else:
+            wf, script = sc["wf"], sc["script"]
+            nodes = wfgen.expand(wf)
+            flowir, extra = wfgen.to_flowir(wf), None
         loc = vlib.mkscratch("c01")
         try:
-            r = harness.run_scenario(wfgen.to_flowir(wf), script, loc, perturb_seed=sc["pseed"],
+            r = harness.run_scenario(flowir, script, loc, perturb_seed=sc["pseed"],
                                      jitter_p=sc["jitter_p"], jitter_max=sc["jitter_max"], storm=sc["storm"],
-                                     watchdog_s=job.get("watchdog_s", 120.0), continue_on_error=False)
+                                     watchdog_s=job.get("watchdog_s", 120.0), continue_on_error=False,
+                                     extra_files=extra)
         finally:
             shutil.rmtree(loc, ignore_errors=True)
         w.evaluated()
@@ -44,7 +53,12 @@ def run_job(job, w):
             w.note_inconclusive("generated workflow did not load: %s" % r["build_error"])
             continue
         if sorted(nodes) != r["graph_nodes"]:
-            w.count("expansion_mismatch")
+            w.count("expansion_mismatch" if not is_dw else "dowhile_expansion_mismatch")
+        if is_dw:
+            w.count("dowhile_iterations_instantiated", sum(1 for n in r["graph_nodes"] if n.endswith("#cond")) - 1)
+            if any(n.endswith(".after") and any(e["kind"] == "launch" and e["comp"] == n for e in r["events"])
+                   for n in nodes):
+                w.count("dowhile_outside_consumer_launches_checked")
         ev = r["events"]
         viol, cnt = oracles.c01_check(nodes, ev)
         for k, v in cnt.items():
@@ -91,6 +105,12 @@ def make_scenarios(n, salt, thorough):
                                   p_repeat=rng.choice([0.15, 0.3, 0.45]))
         out.append({**pair, "pseed": rng.randrange(1 << 30), "jitter_p": rng.choice([0.0, 0.2, 0.5, 0.8]),
                     "jitter_max": rng.choice([0.005, 0.02, 0.05]), "storm": rng.random() < 0.7})
+    # DoWhile slice: every 10th scenario is a loop package (up to 3 further iterations in quick, 12 in thorough)
+    from rt import wfgen
+    for i in range(0, n, 10):
+        dw = wfgen.gen_dowhile(rng, max_iter=3 if not thorough else rng.choice([3, 3, 12]))
+        out[i] = {**dw, "pseed": rng.randrange(1 << 30), "jitter_p": rng.choice([0.0, 0.3, 0.6]),
+                  "jitter_max": 0.02, "storm": rng.random() < 0.5}
     return out
 
 
@@ -137,6 +157,7 @@ def main():
     c.floor("launch_checks", 300)
     c.floor("runs_with_window_exercised", 5)
     c.floor("subject_exception_used", 1)
+    c.floor("dowhile_outside_consumer_launches_checked", 3)
     sys.exit(c.finish())
 
 
